@@ -127,16 +127,26 @@ def _parse(r):
     if r.exit not in (0, 10, 11, 12, 13):
         if r.exit == -9:
             raise TlcError("TLC timed out:\n" + r.out[-3000:])
-        raise TlcError("TLC failed (exit %s):\n%s" % (r.exit, r.out[-1800:]))
+        errs = []
+        ls = r.out.splitlines()
+        for i, ln in enumerate(ls):
+            if ln.startswith("Error:") or "Attempted" in ln or "exception was" in ln:
+                errs.append(" | ".join(x[:200] for x in ls[i:i + 4]))
+        raise TlcError("TLC failed (exit %s):\n%s\n...\n%s" % (r.exit, "\n".join(errs[:6]), r.out[-600:]))
     if r.exit in (10,):
         raise TlcError("TLC assumption failed:\n" + r.out[-1800:])
 
 
-def printed_tuples(r, tag):
-    """Yield the JSON payloads of lines printed as <<"tag", "json-string">>."""
+def printed_tuples(r, tag, budget=None):
+    """Yield the JSON payloads of lines printed as <<"tag", "json-string">> (evenly sampled down to
+    about `budget` of them when given - sampling happens before the JSON is parsed)."""
     pre = '<<"%s", "' % tag
-    for line in r.printed:
-        if line.startswith(pre) and line.endswith('">>'):
+    lines = [ln for ln in r.printed if ln.startswith(pre) and ln.endswith('">>')]
+    r.emitted = len(lines)
+    if budget and len(lines) > budget:
+        lines = lines[::max(1, len(lines) // budget)]
+    for line in lines:
+        if True:
             inner = line[len(pre) - 1:-2]
             try:
                 s = json.loads(inner)
